@@ -152,12 +152,23 @@ static void op_enable(pv_rng* r, unsigned arg) {
 }
 static void op_reinject(void) { inject_tag(1 - M_tag); seq(0xa0); PV_COUNT("ops.reinject", 1); g_state_changed = true; }
 
+/* the library's own static / thread-local storage may change only in polyseed_inject and polyseed_enable_features */
+static int g_nranges; static bool g_baseline;
+static void guard_begin(void) { if (g_nranges && !g_baseline) { pv_static_snapshot(); g_baseline = true; } }
+static void guard_end(const char* op, bool exempt) {
+    if (!g_nranges) return;
+    PV_COUNT("static_storage.checks", 1);
+    if (exempt) { pv_static_snapshot(); return; }        /* inject / enable_features legitimately change polyseed_deps / the feature mask: new baseline */
+    if (pv_static_digest() != 0) { vio(op, "hidden-static-state", "the library's static storage changed during %s: %s", op, pv_static_diff()); pv_static_snapshot(); }
+}
+
 static void reset_all(void) {
     for (int i = 0; i < NSLOT; ++i) if (S[i].live) { pv_api_free(S[i].s); S[i].live = false; }
     if (pv_ledger_live() != 0) { pv_ledger_reclaim(0); }
     inject_tag(0);
     pv_api_enable_features(0); M_mask = 0;
     g_seqhash = 0; g_state_changed = false; g_had_ctor = false; g_bad = false;
+    g_baseline = false;
 }
 
 static void init(void) {
@@ -166,6 +177,8 @@ static void init(void) {
     pv_inject_default();
     pv_model_bind_library();
     g_out = malloc(POLYSEED_STR_SIZE); g_img = malloc(32); g_key = malloc(64);
+    g_nranges = pv_static_init();
+    pv_maxf((uint64_t)g_nranges, "static_storage.ranges_of_library_objects_monitored");
     pv_info("rule", "(a) random walks of 50-200 operations over up to 6 live seeds: create(any unsigned), load(valid/other slot/mutated/random), decode and decode_explicit (model phrase, "
                     "another slot's phrase, grammar string, wrong coin), crypt, encode, keygen, getters, free, free(NULL), enable_features(any), re-injection of a second stub set, armed "
                     "allocation failure; model-guided, boundary-biased arguments; junk-filling allocator. (b) every sequence up to length 4 (5 in thorough) over the alphabet {create0, create1, "
@@ -183,6 +196,7 @@ static void run_walks(uint64_t idx, pv_rng* rng) {
         uint32_t op = pv_randn(rng, 100); bool armed = pv_randn(rng, 25) == 0;
         bool had = g_had_ctor; g_state_changed = false;
         int target = -2;
+        guard_begin();
         if (op < 10) op_create(rng, pv_randn(rng, 3) ? pv_randn(rng, 8) : (unsigned)pv_rand64(rng), armed);
         else if (op < 22) op_load(rng, armed);
         else if (op < 32) op_decode(rng, false, armed);
@@ -195,6 +209,7 @@ static void run_walks(uint64_t idx, pv_rng* rng) {
         else if (op < 88) op_free(rng, true);
         else if (op < 96) op_enable(rng, pv_randn(rng, 4) ? pv_randn(rng, 8) : (unsigned)pv_rand64(rng));
         else op_reinject();
+        guard_end("walk-step", op >= 88);
         PV_COUNT("evaluations", 1);
         if (had && g_state_changed) after_ctor_change = true;
         observe_others(target, "step", rng);
@@ -217,6 +232,7 @@ static void run_exh(uint64_t idx, pv_rng* rng) {
     bool after = false; char desc[128]; size_t dl = 0;
     for (int i = 0; i < len && !g_bad; ++i) {
         bool had = g_had_ctor; g_state_changed = false;
+        guard_begin();
         switch (sym[i]) {
         case X_CREATE0: op_create(rng, 0, false); break;
         case X_CREATE1: op_create(rng, 1, false); break;
@@ -229,6 +245,7 @@ static void run_exh(uint64_t idx, pv_rng* rng) {
         case X_FREE: op_free(rng, false); break;
         case X_REINJECT: op_reinject(); break;
         }
+        guard_end(XN[sym[i]], sym[i] == X_ENABLE0 || sym[i] == X_ENABLE1 || sym[i] == X_REINJECT);
         seq(0x1000 + (uint64_t)sym[i]);
         PV_COUNT("evaluations", 1);
         if (had && g_state_changed) after = true;
